@@ -118,7 +118,9 @@ class C15(Engine):
             variants = [
                 {"kind": 0, "fill": 0, "seed": 1},
                 {"kind": 0, "fill": rng.range(1, 3), "seed": rng.u64()},
-                {"kind": 1, "fill": rng.below(4), "seed": rng.u64(), "hist_steps": rng.below(50), "hist": self.history(rng, code).hex()},
+                {"kind": 1, "fill": rng.below(4), "seed": rng.u64(), "hist_steps": rng.below(50), "hist": self.history(rng, code).hex(),
+                 # the unrelated history may end with a free run that the user interrupted with Ctrl-C
+                 "hist_sigint": rng.pick([1, 2, 5]) if (rng.chance(1, 3) and cpu not in ("riscv", "mips", "ebpf")) else 0},
             ]
             if rng.chance(1, 3) and cpu not in ("riscv", "mips", "ebpf"):
                 variants.append({"kind": 2, "fill": 0, "seed": 1, "usec": rng.pick([1, 1000, 999999, 1000000]), "sig_k": rng.pick([0, 0, 1, 2, 5, 20])})
@@ -170,6 +172,7 @@ class C15(Engine):
                 w.u32(v.get("usec", 0))
                 w.u32(v.get("sig_k", 0))
                 w.u32(v.get("hist_steps", 0))
+                w.u32(v.get("hist_sigint", 0))
                 w.bytes(bytes.fromhex(v.get("hist", "")))
         return bytes(w.b)
 
@@ -237,7 +240,7 @@ class C15(Engine):
             post2 = (m.group(13), m.group(14))
             pre_top, post_top = int(m.group(4), 16), max(int(m.group(10), 16), int(m.group(16), 16))
             if bits is not None:
-                limit = 2 << bits
+                limit = 1 << bits
                 if post_top >= limit and pre_top < limit:
                     res.viol("%s:oob-page" % cpu, top="0x%x" % post_top, limit="0x%x" % limit, case=trim(case, 160))
             mr = re.search(r"@@RUN usleeps=(\d+) sig_at=(\d+) delivered=(\d)", vb)
